@@ -316,6 +316,10 @@ def run(pm, ctx):
                                               'stone.backends.python_helpers'),
                       False, 'python_client', TOTALITY_PRECONDITIONS, (10, 3, 0))
 
+    from ..conddrift import run_decisions
+    from ..ownership import OWN
+    run_decisions(pm, ctx, 'C14-RD', OWN['C14'])
+
 
 def _parents_until(node, stop):
     n = getattr(node, '_parent', None)
